@@ -434,6 +434,8 @@ impl<'a> VisitMut for LogPass<'a> {
                     continue;
                 }
             }
+            // R19: `use` declarations inside a body are dropped (the names are provided by the unit's prelude)
+            if matches!(&s, Stmt::Item(Item::Use(_))) { self.rules.hit("R19.inner_use_dropped"); continue; }
             out.push(s);
         }
         b.stmts = out;
@@ -746,11 +748,12 @@ impl<'a> VisitMut for EtaPass<'a> {
 // R7 (method chains): `RECV.m1(A..).m2(B..)` -> `wrapper(RECV | &mut RECV, A.., B..)` for chains named
 // in the contract file; the wrapper in the prelude has the original chain as its body.
 
-struct ChainSpec { chain: Vec<String>, wrapper: String, recv_mode: String, used: u64, soft: bool }
-struct ChainPass<'a> { rules: &'a mut Rules, specs: &'a mut Vec<ChainSpec> }
+struct ChainSpec { chain: Vec<String>, wrapper: String, recv_mode: String, used: u64, soft: bool, nth: Option<u64>, seen: u64 }
+struct ChainPass<'a> { rules: &'a mut Rules, specs: &'a mut Vec<ChainSpec>, counts: BTreeMap<String, u64>, counted: std::collections::BTreeSet<String> }
 impl<'a> VisitMut for ChainPass<'a> {
     fn visit_expr_mut(&mut self, e: &mut Expr) {
         visit_mut::visit_expr_mut(self, e);
+        self.counted.clear();
         for sp in self.specs.iter_mut() {
             // walk down the receiver chain
             let mut cur: &Expr = e;
@@ -768,12 +771,41 @@ impl<'a> VisitMut for ChainPass<'a> {
                 break;
             }
             if !ok { continue; }
+            // `chain#N`: only the N-th occurrence (in visiting order) of this chain
+            // (occurrences are counted once per expression and chain name, shared by all `#N` specs of that chain)
+            if sp.nth.is_some() {
+                let key = sp.chain.join(".");
+                if !self.counted.contains(&key) { self.counted.insert(key.clone()); let c = self.counts.entry(key.clone()).or_insert(0); sp.seen = *c; *c += 1; }
+                else { sp.seen = *self.counts.get(&key).unwrap() - 1; }
+                if Some(sp.seen) != sp.nth { continue; }
+            }
             let recv = cur.clone();
             let mut args: Vec<Expr> = vec![];
             for a in args_rev.into_iter().rev() { args.extend(a); }
             let w = Ident::new(&sp.wrapper, Span::call_site());
             // built structurally (not re-parsed): arguments may already hold Verus-syntax closures
             let mut call: ExprCall = parse_quote!(#w());
+            if sp.recv_mode == "expect" {
+                // R18: `OPT.unwrap_or_else(|| panic!(..))` -> `wrapper(OPT)`; only when the single argument is a
+                // closure whose body is just a diverging macro (the wrapper requires the value to be present)
+                let diverges = |e: &Expr| -> bool {
+                    let is_div = |m: &ExprMacro| matches!(macro_name(&m.mac.path).as_str(), "panic" | "unreachable" | "unimplemented");
+                    match e {
+                        Expr::Closure(c) if c.inputs.is_empty() => match &*c.body {
+                            Expr::Macro(m) => is_div(m),
+                            Expr::Block(b) if b.block.stmts.len() == 1 => match &b.block.stmts[0] { Stmt::Expr(Expr::Macro(m), _) => is_div(m), Stmt::Macro(m) => matches!(macro_name(&m.mac.path).as_str(), "panic" | "unreachable" | "unimplemented"), _ => false },
+                            _ => false,
+                        },
+                        _ => false,
+                    }
+                };
+                if !(args.len() == 1 && diverges(&args[0])) { continue; }
+                call.args.push(recv);
+                sp.used += 1;
+                self.rules.hit("R18.unwrap_or_else_panic_as_precondition");
+                *e = Expr::Call(call);
+                return;
+            }
             match sp.recv_mode.as_str() {
                 "mut" => call.args.push(parse_quote!(&mut #recv)),
                 "ref" => call.args.push(parse_quote!(& #recv)),
@@ -1211,10 +1243,12 @@ fn process_fn(
     let mut chains: Vec<ChainSpec> = vec![];
     if let Some(Value::Array(a)) = spec.get("adapts") {
         for v in a {
-            chains.push(ChainSpec { chain: get_str(v, "chain").unwrap_or_default().split('.').map(|s| s.to_string()).collect(), wrapper: get_str(v, "wrapper").unwrap_or_default(), recv_mode: get_str(v, "recv").unwrap_or_default(), used: 0, soft: v.get("soft").and_then(|x| x.as_bool()).unwrap_or(false) });
+            let full = get_str(v, "chain").unwrap_or_default();
+            let (cname, nth) = match full.split_once('#') { Some((a, b)) => (a.to_string(), b.parse::<u64>().ok()), None => (full.clone(), None) };
+            chains.push(ChainSpec { nth, seen: 0, chain: cname.split('.').map(|s| s.to_string()).collect(), wrapper: get_str(v, "wrapper").unwrap_or_default(), recv_mode: get_str(v, "recv").unwrap_or_default(), used: 0, soft: v.get("soft").and_then(|x| x.as_bool()).unwrap_or(false) });
         }
     }
-    ChainPass { rules, specs: &mut chains }.visit_block_mut(block);
+    ChainPass { rules, specs: &mut chains, counts: BTreeMap::new(), counted: Default::default() }.visit_block_mut(block);
     for c in &chains { if c.used == 0 && !c.soft { errors.push(format!("{}: lost anchor: method chain {} not found", path, c.chain.join("."))); } }
     // R14
     let mut wraps: Vec<WrapSpec> = vec![];
